@@ -315,7 +315,25 @@ pub fn run(p: &Params) -> Outcome {
                 break;
             }
             let number = if i % 2 == 0 { 1059 } else { 1065 };
-            let (e, class) = if i % 3 == 2 { round_robin_list(&mut rng, number) } else { random_list(&mut rng, number) };
+            let (mut e, mut class) = if i % 3 == 2 { round_robin_list(&mut rng, number) } else { random_list(&mut rng, number) };
+            if i % 11 == 5 && !e.is_empty() {
+                // one satellite replaced by an id outside the wire range (first run, last run or
+                // anywhere): the only admissible outcomes are an error or the exact multiset
+                let lim: i64 = if number == 1059 { 64 } else { 32 };
+                let any = rng.range(lim, 255) as u8;
+                let bad = *rng.pick(&[lim as u8, (lim + 1) as u8, 127, 128, 254, 255, any]);
+                let victim = match rng.below(3) {
+                    0 => e[0].0,
+                    1 => e[e.len() - 1].0,
+                    _ => e[rng.usize_below(e.len())].0,
+                };
+                for x in e.iter_mut() {
+                    if x.0 == victim {
+                        x.0 = bad;
+                    }
+                }
+                class = "one_satellite_id_out_of_range";
+            }
             check(ctx, number, &e, class);
             if i % 4 == 0 {
                 hostile_frames(ctx, &mut rng, [1059u16, 1065, 1230][(i / 4 % 3) as usize], 2);
